@@ -192,14 +192,16 @@ def check_file_calls(run, cases, per_file_budget, rng, with_extra=True):
         fc = cases[fi]
         if fi not in readers:
             with env.quiet():
-                readers[fi] = SgzReader(fc.path)
+                readers[fi] = SgzReader(fc.path if fi % 2 else __import__('pathlib').Path(fc.path))      # str and pathlib.Path alike
         case = {'file': fc.label, 'op': op, 'args': a, 'F': {k2: fc.F[k2] for k2 in ('dim', 'n', 'b', 'ub')}}
         if len(ans['alts']) != 1 or ans['alts'][0]['kind'] == 'raise':
             run.machinery(f'generated in-range call judged out of range by SgzApi: {case}')
             continue
         run.case(case)
+        # on every third file the integers are numpy integers (what callers get from np.where, axis arithmetic, ...)
+        a_call = [np.int64(x) if (fi % 3 == 1 and isinstance(x, int) and not isinstance(x, bool) and x != NONE) else x for x in a]
         with env.quiet():
-            out = readcalls.invoke(readers[fi], op, a)
+            out = readcalls.invoke(readers[fi], op, a_call)
         ok, detail = readcalls.compare(out, ans['alts'], fc.ref, header_of=lambda t, fc=fc, ans=ans: fc.header(ans['alts'][0]['grid']))
         run.check(ok, f'C02.value[{op}]', case, detail, _exp(ans['alts'][0]))
         mk = ans['model']['kind']
